@@ -175,6 +175,14 @@ def run():
     if s is not None:
         c.findings.append(Finding("bounded", "tokens.create#join", "join(tokens.create(%r)) != input: %s" % (s, why), {"function": "vsg.tokens.create", "failing_input": {"sString": s}, "observed": why}, repr(s)))
 
+    # bounded (a'): the file reader splits at LF / CRLF / CR only
+    from bounded import readfile
+
+    total, why = readfile.exhaustive(3 if c.tier == "quick" else 5, corpus.pmap)
+    c.bounded["read_vhdlfile"] = {"evaluations": total, "distinct_nontrivial": total, "exhaustive": True, "rule": "every string up to the length bound over %r written as UTF-8 and as Latin-1 and read back by the real read_vhdlfile; expected = text split at LF/CRLF/CR only" % "".join(readfile.ALPH)}
+    if why:
+        c.findings.append(Finding("bounded", "read_vhdlfile", why, {"function": "vsg.vhdlFile.utils.read_vhdlfile", "observed": why}, why[:60]))
+
     # bounded (b): emit(parse(x)) == x over the corpus
     files = corpus.sample(400 if c.tier == "quick" else 10**6, c.seed)
     res = corpus.pmap(_roundtrip, files)
